@@ -55,6 +55,9 @@ def check_cfg(ctx, fx, cfg):
         if not ctx.require(f is not None, "R07.1", "entry:%s@%s" % (e, cfg), "restart entry point not found"):
             continue
         ctx.require(e in fns and not f.get("is_async"), "R07.1", "entry:%s@%s" % (e, cfg), "restart must enqueue Payload::Restart synchronously through the forcing closure", fn=e, site=f["loc"])
+    from props.c04 import check_submit_on_ok
+    for e in RESTART_ENTRIES:
+        check_submit_on_ok(ctx, fx, "R07.1", e, set(RESTART_ENTRIES))
     # R07.6 identity: no new Context (hence no new ContextID) and no new channel is created while an actor lives —
     # nothing reachable from the loops or the restart strategies constructs a Context or a mailbox queue
     from mir import agg_sites
